@@ -2,7 +2,7 @@
    The closure is evaluated on the implementation on every run (trace, then serialize the same
    samples with the traced schema, then decode = interp inside Coq: the C01 oracle); the tracer
    model is compared with the crate in the C07 run. *)
-From Verif Require Import Tracer Coerce Coerce_proofs Accept Accept_proofs.
+From Verif Require Import Tracer Coerce Coerce_proofs Accept Accept_proofs CoerceTable CoerceTable_proofs TracerTablesSpec.
 
 (* Full-strength statement (kept visible); Excluded = the three documented exclusions *)
 Definition C06_full (accepts : list SField -> list Value -> Prop) (Excluded : Opts -> list Value -> Prop) : Prop :=
@@ -41,5 +41,12 @@ Example C06_example :
   forallb (builder_accepts PFloat64) [11; 1; 9]%nat = true.
 Proof. vm_compute. repeat split; reflexivity. Qed.
 
+(* the model's coerce_core IS the match of coerce_primitive_type in /repo's tracer.rs: the arms are regenerated
+   from the source on every run (Gen/TracerTables.v) and read as a first-match table *)
+Theorem C06_coerce_arms_match_model : forall cn ts lg prev nl curr,
+  CoerceTable.first_match TracerTables.coerce_arms cn ts lg prev nl curr = Some (coerce_core cn ts lg prev nl curr).
+Proof. exact CoerceTable_proofs.coerce_table_is_model. Qed.
+
 Print Assumptions C06_leaf_accepts_partial.
 Print Assumptions C06_leaf_null_nullable_partial.
+Print Assumptions C06_coerce_arms_match_model.
